@@ -842,13 +842,19 @@ type c17sessOut struct {
 	didAcquire                   bool
 }
 
-func c17runSession(d *c17def, cur, tgt string, auth bool, seg int, user string, pre ...func()) *c17sessOut {
+// auth: 0 = no secondary secret, the device never asks; 1 = secret configured, the device asks on
+// authenticated edges; 2 = secret configured, the device lets the client in WITHOUT asking (no
+// enable secret set on the device).
+func c17runSession(d *c17def, cur, tgt string, auth int, seg int, user string, pre ...func()) *c17sessOut {
 	out := &c17sessOut{}
-	secret := ""
-	if auth {
+	secret, devSecret := "", ""
+	if auth > 0 {
 		secret = c17secret
 	}
-	dev := c17newDev(d, cur, secret, seg)
+	if auth == 1 {
+		devSecret = c17secret
+	}
+	dev := c17newDev(d, cur, devSecret, seg)
 	done := make(chan struct{})
 	var mu sync.Mutex
 	snap := func() (string, int) {
@@ -867,7 +873,7 @@ func c17runSession(d *c17def, cur, tgt string, auth bool, seg int, user string, 
 			}
 		}()
 		opts := append(c17baseOpts(dev.cli.Pipe), options.WithTimeoutOps(2*time.Second))
-		if auth {
+		if auth > 0 {
 			opts = append(opts, options.WithAuthSecondary(secret))
 		}
 		if user != "" {
@@ -1056,22 +1062,22 @@ func (d *c17def) observe(ls []sim.LineEvent, exp []c17expLine) string {
 	return ""
 }
 
-func c17sessLine(d *c17def, cur, tgt string, auth bool, seg int, user string) string {
+func c17sessLine(d *c17def, cur, tgt string, auth int, seg int, user string) string {
 	u := user
 	if u == "" {
 		u = "~"
 	}
 	return fmt.Sprintf("c17sess %s %s %s %s %d %d %s", d.file, map[bool]string{true: "-", false: d.variant}[d.variant == ""], cur, tgt,
-		map[bool]int{true: 1, false: 0}[auth], seg, u)
+		auth, seg, u)
 }
 
-func c17session(c *ctx, d *c17def, cur, tgt string, auth bool, seg int, user string, verbose bool) {
+func c17session(c *ctx, d *c17def, cur, tgt string, auth int, seg int, user string, verbose bool) {
 	caseLine := c17sessLine(d, cur, tgt, auth, seg, user)
 	o := c17runSession(d, cur, tgt, auth, seg, user)
 	c17judge(c, d, cur, tgt, auth, user, o, caseLine, verbose)
 }
 
-func c17judge(c *ctx, d *c17def, cur, tgt string, auth bool, user string, o *c17sessOut, caseLine string, verbose bool) {
+func c17judge(c *ctx, d *c17def, cur, tgt string, auth int, user string, o *c17sessOut, caseLine string, verbose bool) {
 	acts, okActs := d.onx[user]
 	if !okActs {
 		c.res.Fail("machinery", caseLine, "no model on-X actions for user default "+user, "driver-protocol")
@@ -1095,8 +1101,8 @@ func c17judge(c *ctx, d *c17def, cur, tgt string, auth bool, user string, o *c17
 		}
 	}
 	c.res.TracesVsImpl++
-	secret := ""
-	if auth {
+	secret := "" // what the DEVICE asks for: only then does the secret travel
+	if auth == 1 {
 		secret = c17secret
 	}
 	hops := len(d.treePath(cur, tgt)) - 1
@@ -1108,8 +1114,11 @@ func c17judge(c *ctx, d *c17def, cur, tgt string, auth bool, user string, o *c17
 	if f := strings.Fields(caseLine); len(f) >= 7 {
 		c.res.Count("session:" + f[6] + "-byte-reads(0=whole)")
 	}
-	if auth {
+	if auth == 1 {
 		c.res.Count("session:secret")
+	}
+	if auth == 2 {
+		c.res.Count("session:secret-configured-device-does-not-ask")
 	}
 	if verbose {
 		fmt.Printf("%s: stage=%s openErr=%v acqErr=%v closeErr=%v panic=%q hang=%v modes open=%s acquire=%s close=%s closeCalls=%d\n  lines: %s\n",
@@ -1749,7 +1758,8 @@ func runC17(c *ctx) {
 				if len(f) == 8 && f[7] != "~" {
 					user = f[7]
 				}
-				c17session(c, d, f[3], f[4], f[5] == "1", seg, user, true)
+				av, _ := strconv.Atoi(f[5])
+				c17session(c, d, f[3], f[4], av, seg, user, true)
 			}
 		case len(f) == 4 && f[0] == "c17hist":
 			if d := c17find(defs, f[1], f[2]); d != nil {
@@ -1806,7 +1816,7 @@ func runC17(c *ctx) {
 	type job struct {
 		d        *c17def
 		cur, tgt string
-		auth     bool
+		auth     int
 		user     string // user WithDefaultDesiredPriv layered on top ("" = none)
 		out      *c17sessOut
 	}
@@ -1815,9 +1825,17 @@ func runC17(c *ctx) {
 		if d.kind != "network" {
 			continue
 		}
+		// secret configured + device asks, no secret, and — for definitions with an authenticated
+		// edge — secret configured but the device lets the client in without asking
+		auths := []int{1, 0}
+		for _, l := range d.levels {
+			if l.auth {
+				auths = []int{1, 0, 2}
+			}
+		}
 		for _, a := range d.levels {
 			for _, b := range d.levels {
-				for _, auth := range []bool{true, false} {
+				for _, auth := range auths {
 					jobs = append(jobs, &job{d: d, cur: a.key, tgt: b.key, auth: auth})
 				}
 			}
@@ -1830,7 +1848,7 @@ func runC17(c *ctx) {
 				continue
 			}
 			for _, a := range d.levels {
-				for _, auth := range []bool{true, false} {
+				for _, auth := range []int{1, 0} {
 					jobs = append(jobs, &job{d: d, cur: a.key, tgt: d.dd, auth: auth, user: x.key})
 				}
 			}
